@@ -526,7 +526,8 @@ def outcome_of(fn):
     except (Deadlock, BudgetExceeded):
         raise
     except BaseException as e:
-        if isinstance(e, (KeyboardInterrupt, SystemExit, GeneratorExit)):
+        if isinstance(e, (KeyboardInterrupt, SystemExit, GeneratorExit,
+                          NotPrompt)):
             raise
         from dsim.kernel import SimBaseException
         if isinstance(e, SimBaseException):
@@ -864,9 +865,32 @@ class Pristine(object):
             pass
 
 
+CPU_LIMIT = 20.0     # seconds of this process's own CPU time for ONE call
+
+
+class NotPrompt(BaseException):
+    """Raised by the CPU-time watchdog inside a call (BaseException: the
+    parser's own ``except Exception`` cannot swallow it)."""
+
+
+def _on_cpu_limit(signum, frame):
+    raise NotPrompt()
+
+
 def run_call(env, ctx, call, tag, fault_exc=None):
+    """The step budget bounds the work done in Python source lines; a call
+    that spins inside one C call (a regular expression that backtracks for
+    minutes) never reaches another line event. For calls made on the main
+    thread a second watchdog therefore counts the process's own CPU time
+    (ITIMER_VIRTUAL: independent of how loaded the machine is)."""
+    import signal
+    import threading
     K.set_budget(budget_for(call))
     s0 = K.steps
+    watchdog = threading.current_thread() is threading.main_thread()
+    if watchdog:
+        signal.signal(signal.SIGVTALRM, _on_cpu_limit)
+        signal.setitimer(signal.ITIMER_VIRTUAL, CPU_LIMIT)
     try:
         out = env.invoke(call)
     except BudgetExceeded as e:
@@ -874,7 +898,15 @@ def run_call(env, ctx, call, tag, fault_exc=None):
                       dict(call=short(call), msg=str(e),
                            budget=budget_for(call)))
         return None
+    except NotPrompt:
+        ctx.violation("liveness.cpu_time",
+                      dict(call=short(call), cpu_seconds=CPU_LIMIT,
+                           note="one call used more CPU time than that "
+                                "without reaching another source line"))
+        return None
     finally:
+        if watchdog:
+            signal.setitimer(signal.ITIMER_VIRTUAL, 0)
         K.set_budget(None)
     used = K.steps - s0
     if text_len(call) >= 100:
